@@ -501,7 +501,8 @@ class ExcelModel:
             if not isinstance(k, sh.Token) and not (
                 # Blank cells added while assembling the ranges are rebuilt
                 # by `from_dict` (exporting them makes the export drift).
-                k not in self.cells and d['value'] == [[sh.EMPTY]]
+                self.dsp.nodes[k].get('filler') and k not in self.cells and
+                d['value'] == [[sh.EMPTY]]
             )
         }
         nodes = {k: _escape_text(v) for k, v in nodes.items()}
